@@ -50,3 +50,10 @@ def the_interpreter():        # R-GLOBAL: a memoised function that builds an obj
 @lru_cache(maxsize=None)
 def the_interpreter_class():  # fine: a class may be built once
     return interpreter_factory(Visitor)
+
+
+class TimedSince(object):
+    andop = AndOperation()      # R-GLOBAL: one operation object for every TimedSince
+
+    def update(self, l, r):
+        return self.andop.update(l, r)
